@@ -185,14 +185,73 @@ def bool_call_edges(body, prog, names, value, arg_pred=None):
 
 
 def enum_edges(body, prog, adt, variants_pred, src_pred=None):
-    """edges of switches on `adt` discriminants whose covered variant set satisfies variants_pred"""
+    """edges on which a value of enum `adt` is known to be in a variant set satisfying variants_pred:
+    switches on the discriminant, and `x == Adt::V` / `x != Adt::V` tests (derived PartialEq)"""
     def pred(c, vs, leaf):
         if c.kind != "enum" or c.adt != adt:
             return False
         if src_pred and not src_pred(c):
             return False
         return variants_pred(vs)
-    return C.guard_edges(body, prog, pred)
+    out = C.guard_edges(body, prog, pred)
+    names = prog.variant_names(adt)
+    if names and adt in prog.adts and src_pred is None:
+        allv = set(names.values())
+        for bb in C.switches(body):
+            c = C.switch_cond(body, bb)
+            if c.kind != "bool":
+                continue
+            for leaf in c.src:
+                r = C.eq_variant_test(body, leaf, adt, allv)
+                if r is None:
+                    continue
+                var, is_ne = r
+                for val, eid in C.bool_edges(body, bb).items():
+                    truth = (not val) if leaf.neg else val
+                    if is_ne:
+                        truth = not truth
+                    vs = {var} if truth else set(allv - {var})
+                    if variants_pred(vs):
+                        out.add(eid)
+    return out
+
+
+def calls_reaching(prog, b, target_names, arg_check=None):
+    """call sites in `b` that call one of target_names directly (arg_check(term) must hold) or call a crate-local
+    function from which such a call is reachable (helper extraction)"""
+    if isinstance(target_names, str):
+        target_names = (target_names,)
+    out = []
+    memo = prog.__dict__.setdefault("_reach_memo", {})
+    for bb, t in b.calls():
+        names = C.callee_names(t)
+        if any(n in target_names for n in names):
+            if arg_check is None or arg_check(b, t):
+                out.append((bb, t, "direct"))
+            continue
+        local = next((prog.bodies[n] for n in names if n in prog.bodies), None)
+        if local is None or local is b:
+            continue
+        key = (local.name, tuple(target_names), id(arg_check))
+        if key not in memo:
+            found = False
+            ext, entered = C.reach_closure(prog, local)
+            bodies = [local] + [prog.bodies[n] for n in entered if n in prog.bodies]
+            for lb in bodies:
+                for lbb, lt in lb.calls():
+                    if any(n in target_names for n in C.callee_names(lt)) and (arg_check is None or arg_check(lb, lt)):
+                        found = True
+            memo[key] = found
+        if memo[key]:
+            out.append((bb, t, "via " + local.name))
+    return out
+
+
+def out_edges(b, blocks):
+    cut = set()
+    for bb in blocks:
+        cut |= {eid for eid, s_, lab in b.edges(bb)}
+    return cut
 
 
 def try_ok_edges(body, prog, of_call_names, through_decorators=True):
@@ -302,6 +361,39 @@ def path_role(ctx, body, op):
     return None, leaves
 
 
+OPEN_BUILDERS = ("std::fs::OpenOptions::write", "std::fs::OpenOptions::create", "std::fs::OpenOptions::truncate",
+                 "std::fs::OpenOptions::append", "std::fs::OpenOptions::read", "std::fs::OpenOptions::create_new")
+
+
+def classify_open(b, t):
+    """classify an OpenOptions::open call by its builder chain -> (class, settings)"""
+    settings = {}
+    cur = t["args"][0]
+    for _ in range(12):
+        lv = C.trace(b, cur)
+        nxt = None
+        for l in lv:
+            if l.kind == "call":
+                nm = C.callee_name(l.data)
+                if nm in OPEN_BUILDERS:
+                    v = C.op_const(l.data["args"][1]) if len(l.data["args"]) > 1 else None
+                    settings.setdefault(nm.rsplit("::", 1)[1], v)
+                    nxt = l.data["args"][0]
+                elif nm in ("std::fs::OpenOptions::new", "std::fs::File::options"):
+                    settings["_root"] = True
+        if nxt is None:
+            break
+        cur = nxt
+    if not settings.get("_root"):
+        return "OTHER_MUTATING", settings
+    writing = settings.get("write") == "true" or "append" in settings or "create" in settings or "create_new" in settings or "truncate" in settings
+    if not writing:
+        return "READ_OPEN", settings
+    if settings.get("write") == "true" and settings.get("truncate") == "true" and "append" not in settings and "create_new" not in settings:
+        return "CREATE_TRUNC", settings
+    return "OTHER_MUTATING", settings
+
+
 def fs_inventory(ctx):
     def make():
         sites = []
@@ -322,11 +414,16 @@ def fs_inventory(ctx):
                         cls = "PROCESS"
                     if cls is None or cls == "QUERY":
                         continue
+                    path_arg = PATH_ARG.get(nm)
+                    if nm == "std::fs::OpenOptions::open" and kind == "call":
+                        cls, _settings = classify_open(b, obj)
+                        path_arg = 1
                     s = Site(prog, b, bb, kind, nm, obj, cls)
+                    s.path_arg = path_arg
                     if label == "lib":
                         s.modes = mo.site_modes(b, bb)
-                        if kind == "call" and nm in PATH_ARG and cls in ("CREATE_TRUNC", "REMOVE", "READ_BYTES", "READ_UTF8", "READ_OPEN"):
-                            s.role, s.leaves = path_role(ctx, b, obj["args"][PATH_ARG[nm]])
+                        if kind == "call" and path_arg is not None and cls in ("CREATE_TRUNC", "REMOVE", "READ_BYTES", "READ_UTF8", "READ_OPEN"):
+                            s.role, s.leaves = path_role(ctx, b, obj["args"][path_arg])
                     else:
                         s.modes = M.ALL
                     sites.append(s)
